@@ -243,6 +243,7 @@ func main() {
 
 	if r.Replay != "" {
 		if mysqlReplay(r, ks, thorough) { // MySQL replay files (part "mysql-...")
+			os.RemoveAll(dir) // Finish exits: the deferred removal would not run
 			r.Finish()
 		}
 		var rp relayReplay
@@ -252,6 +253,7 @@ func main() {
 		} else {
 			rewritePart(r, env, thorough)
 		}
+		os.RemoveAll(dir)
 		r.Finish()
 	}
 
@@ -312,6 +314,7 @@ func main() {
 	mysqlPart(r, ks, thorough)
 
 	r.Rule("relay: state = one session (sequence of frontend message groups, each answered by a scripted backend answer); oracle = byte identity of both directed streams; rewrite: rows / binds with <= 4 columns over {NULL, empty, short, protected value, 64 KiB} shapes through a configured table; codecs: all strings over the alphabet up to length 4; distinct_nontrivial = distinct (part, groups/answers or shape, outcome)")
+	os.RemoveAll(dir) // Finish exits: the deferred removal would not run
 	r.Assume("PostgreSQL: independent codec = jackc/pgx pgproto3", "lock-step delivery with Flush / NoticeResponse barriers, which are relayed messages themselves", "Themis stand-in")
 	r.Finish()
 }
